@@ -197,6 +197,7 @@ def cdraw_items(rng, quick):
         ("uniform", "Uniform(x, x + y + 1)", [[(F(1), V("x"))], [(F(1), V("x")), (F(1), V("y")), (F(1), ())]]),
         ("uniform", "Uniform(-y, 2*x + 1)", [[(F(-1), V("y"))], [(F(2), V("x")), (F(1), ())]]),
         ("laplace", "Laplace(x - y, 1/2)", [[(F(1), V("x")), (F(-1), V("y"))], [(F(1, 2), ())]]),
+        ("laplace", "Laplace(x, y + 1)", [[(F(1), V("x"))], [(F(1), V("y")), (F(1), ())]]),
         ("laplace", "Laplace(x + 2*y + 1, 2)", [[(F(1), V("x")), (F(2), V("y")), (F(1), ())], [(F(2), ())]]),
         ("exponential", "DistExp(1/(x + 1))", [[(F(1), V("x")), (F(1), ())]]),
         ("exponential", "DistExp(2/(x + y + 1))", [[(F(1, 2), V("x")), (F(1, 2), V("y")), (F(1, 2), ())]]),
@@ -225,7 +226,7 @@ def cdraw_items(rng, quick):
                           "goalmap": goalmap, "goals": list(goalmap), "points": [{}], "origin": f"cdraw {text}",
                           "meta": meta})
             i += 1
-    return items if not quick else items[::2] + items[1::4]
+    return items if not quick else [it for i, it in enumerate(items) if i % 2 == 0 or i % 4 == 1 or "Laplace(x, y + 1)" in it["text"]]
 
 
 def main(tier, seed):
